@@ -179,3 +179,89 @@ theorem releaseEdges_spec (tEnd : Nat) : ∀ (L : List PEdge) (s : RState) (r : 
         · subst h; simp; split <;> split <;> omega
         · have h' : ¬ v = e.v := fun x => h x.symm
           simp [h, h']
+
+/-! ### the invariant of the traversal -/
+
+/-- pending events of kind `k` for node `v` -/
+def qc (q : List Event) (k : EvKind) (v : Nat) : Nat := q.countP (fun e => decide (e.kind = k ∧ e.u = v))
+
+theorem qc_append (q r : List Event) (k : EvKind) (v : Nat) : qc (q ++ r) k v = qc q k v + qc r k v := by
+  simp [qc, List.countP_append]
+
+theorem qc_single (e : Event) (k : EvKind) (v : Nat) :
+    qc [e] k v = if e.kind = k ∧ e.u = v then 1 else 0 := by
+  simp [qc, List.countP_cons]
+
+theorem qc_eraseIdx (q : List Event) (i : Nat) (h : i < q.length) (k : EvKind) (v : Nat) :
+    qc q k v = qc (q.eraseIdx i) k v + (if q[i].kind = k ∧ q[i].u = v then 1 else 0) := by
+  have := countP_eraseIdx (fun e : Event => decide (e.kind = k ∧ e.u = v)) q i h
+  simpa [qc] using this
+
+theorem qc_ready_of_all_ready (new : List Event) (h : ∀ e ∈ new, e.kind = .ready) (v : Nat) :
+    qc new .ready v = cntU new v ∧ qc new .start v = 0 ∧ qc new .lastStart v = 0 ∧ qc new .end_ v = 0 := by
+  refine ⟨?_, ?_, ?_, ?_⟩
+  · exact List.countP_congr (fun e he => by simp [h e he])
+  all_goals
+    apply List.countP_eq_zero.mpr
+    intro e he
+    simp [h e he]
+
+/-- edges into `v` from nodes that have not ended yet -/
+def remaining (G : PiDag) (ended : Array Nat) (v : Nat) : Nat :=
+  rsum G.T.size fun u => if ended[u]! = 0 then cntV (outEdges G u) v else 0
+
+/-- how many `ready` events node `v` has been given so far -/
+def enqOf (G : PiDag) (ended : Array Nat) (v : Nat) : Nat :=
+  if v = firstLeaf G then 1
+  else if 0 < (indegrees G)[v]! ∧ remaining G ended v = 0 then 1 else 0
+
+def asum (n : Nat) (a : Array Nat) : Nat := rsum n (fun v => a[v]!)
+
+/-- what the checker's certificate provides, in the form the traversal proof uses -/
+structure Cert (G : PiDag) (rank : Nat → Option Nat) : Prop where
+  fl_lt : firstLeaf G < G.T.size
+  fl_leaf : isLeaf G.T[firstLeaf G]! = true
+  ranked_leaf : ∀ i, (rank i).isSome → i < G.T.size ∧ isLeaf G.T[i]! = true
+  leaf_ranked : ∀ i, i < G.T.size → isLeaf G.T[i]! = true → (rank i).isSome
+  indeg_fl : (indegrees G)[firstLeaf G]! = 0
+  indeg_leaf : ∀ i, i < G.T.size → isLeaf G.T[i]! = true → i ≠ firstLeaf G → 0 < (indegrees G)[i]!
+  indeg_inner : ∀ i, i < G.T.size → isLeaf G.T[i]! = false → (indegrees G)[i]! = 0
+  forward : ∀ u, u < G.T.size → ∀ e ∈ outEdges G u, ∃ a b, rank u = some a ∧ rank e.v = some b ∧ a < b
+  degrees : ∀ v, v < G.T.size → (indegrees G)[v]! = rsum G.T.size (fun u => cntV (outEdges G u) v)
+  indeg_size : (indegrees G).size = G.T.size
+
+structure Inv (G : PiDag) (s : RState) : Prop where
+  sz_rc : s.readyCount.size = G.T.size
+  sz1 : s.readied.size = G.T.size
+  sz2 : s.started.size = G.T.size
+  sz3 : s.lastStarted.size = G.T.size
+  sz4 : s.ended.size = G.T.size
+  qlt : ∀ e ∈ s.queue, e.u < G.T.size
+  pipe1 : ∀ v, v < G.T.size → s.readied[v]! = s.started[v]! + qc s.queue .start v
+  pipe2 : ∀ v, v < G.T.size → s.started[v]! = s.lastStarted[v]! + qc s.queue .lastStart v
+  pipe3 : ∀ v, v < G.T.size → s.lastStarted[v]! = s.ended[v]! + qc s.queue .end_ v
+  enq : ∀ v, v < G.T.size → s.readied[v]! + qc s.queue .ready v = enqOf G s.ended v
+  rc : ∀ v, v < G.T.size → s.readyCount[v]! = (remaining G s.ended v : Int)
+  run : s.nRunning = (asum G.T.size s.started : Int) - asum G.T.size s.ended
+  rdy : s.nReady = (asum G.T.size s.readied : Int) - asum G.T.size s.lastStarted
+
+theorem enqOf_le_one (G : PiDag) (ended : Array Nat) (v : Nat) : enqOf G ended v ≤ 1 := by
+  unfold enqOf; split <;> (try split) <;> omega
+
+theorem Inv.le_one {G : PiDag} {s : RState} (h : Inv G s) (v : Nat) (hv : v < G.T.size) :
+    s.readied[v]! ≤ 1 ∧ s.started[v]! ≤ 1 ∧ s.lastStarted[v]! ≤ 1 ∧ s.ended[v]! ≤ 1 := by
+  have := h.pipe1 v hv; have := h.pipe2 v hv; have := h.pipe3 v hv; have := h.enq v hv
+  have := enqOf_le_one G s.ended v
+  omega
+
+theorem asum_modify (n : Nat) (a : Array Nat) (u : Nat) (hu : u < n) (ha : a.size = n) :
+    asum n (a.modify u (· + 1)) = asum n a + 1 := by
+  have e : (fun v => (a.modify u fun x => x + 1)[v]!) = fun v => if u = v then a[v]! + 1 else a[v]! := by
+    funext v; rw [modify_get!, ha]; simp [hu]
+  have := rsum_update n u hu (fun v => a[v]!) (fun v => if u = v then a[v]! + 1 else a[v]!)
+    (by intro x _ hx
+        have hxu : ¬ u = x := fun e => hx e.symm
+        simp [hxu])
+  simp at this
+  simp only [asum, e]
+  omega
